@@ -119,6 +119,9 @@ static const char *T_B64[] = {"A", "z", "=", "+", "/", "\n", "\xff"};
 static const char *T_HEX[] = {"0", "a", "F", "g", "\xff"};
 static const char *T_QRY[] = {"&", "=", "%", "+", "a", " "};
 static const char *T_INI[] = {"a", "b", "=", "${a}", "${b}", "${", "}", "$", "{", "[", "]", "#", "\n", " ", "${%E}", "${!x}", "a=${a}\n", "a=${b}\n", "b=x${a}${a}\n", "${%}", "${!}"};
+/* whole lines whose values hold PIECES of references: an unbalanced "${a", a stray "}", "$" and "{x}" that only become a
+ * reference when one value is substituted into another (cycles that no single stored value shows) */
+static const char *T_INIREF[] = {"a=${b}}\n", "b=${a\n", "c=${a}\n", "a=${b}}${b}}\n", "b=${a}\n", "a=$\n", "c=${a}{a}\n", "a={a}$\n", "b=${\n", "c=${b}a}\n", "a=${b\n", "b=}\n", "c=${a}${b}\n", "a=x${c}\n"};
 static const char *T_INIF[] = {"@INCLUDE inc.conf", "@INCLUDE empty.conf", "@INCLUDE missing.conf", "@INCLUDE", " ", "\n", "a=b", "#", "${a}", "/", "inc.conf"};
 static const char *T_AC[] = {"a", " ", "\t", "'", "\"", "\\", "<", "</", ">", "\n", "#", "1", "On", "s"};
 
@@ -206,6 +209,7 @@ static int run_family(const char *fam, int maxn, long shard, long nshards) {
     else if (!strcmp(fam, "hex")) { G(T_HEX, f_hex); vc_sample("qhex_decode(\"0aF\") (odd length), (\"g\\xff\")"); }
     else if (!strcmp(fam, "query")) { G(T_QRY, f_query); vc_sample("qparse_queries(\"a=%%&=+\")"); }
     else if (!strcmp(fam, "ini")) { G(T_INI, f_ini); vc_sample("qconfig_parse_str(\"a=${a}\\nb=${a}\") , (\"[\\n${${a}\")"); }
+    else if (!strcmp(fam, "iniref")) { G(T_INIREF, f_ini); vc_sample("qconfig_parse_str(\"a=${b}}\\nb=${a\\nc=${a}\")"); }
     else if (!strcmp(fam, "inifile")) { setup_tmp(); G(T_INIF, f_inifile); cleanup_tmp(); vc_sample("qconfig_parse_file: \"@INCLUDE inc.conf\\na=b\", \"@INCLUDE missing.conf\", \"@INCLUDE/\""); }
     else if (!strcmp(fam, "apache0")) { aflags = 0; G(T_AC, f_apache); vc_sample("qaconf parse: \"a '\\\\\", \"<s>\\na \\\"1\\n</s>\""); }
     else if (!strcmp(fam, "apache3")) { aflags = QAC_CASEINSENSITIVE | QAC_IGNOREUNKNOWN; G(T_AC, f_apache); vc_sample("qaconf parse (case-insensitive, ignore-unknown): \"ON 1 1.5 yes\""); }
@@ -221,7 +225,7 @@ static int replay(const char *key) {
     static unsigned char raw[VC_KEYMAX]; size_t n = vc_unhex(c + 1, raw); raw[n] = 0;
     const char *s = (const char *)raw;
     if (!strcmp(fam, "url")) f_url(fam, s); else if (!strcmp(fam, "b64")) f_b64(fam, s); else if (!strcmp(fam, "hex")) f_hex(fam, s);
-    else if (!strcmp(fam, "query")) f_query(fam, s); else if (!strcmp(fam, "ini")) f_ini(fam, s);
+    else if (!strcmp(fam, "query")) f_query(fam, s); else if (!strcmp(fam, "ini") || !strcmp(fam, "iniref")) f_ini(fam, s);
     else if (!strcmp(fam, "inifile")) { setup_tmp(); f_inifile(fam, s); cleanup_tmp(); }
     else if (!strcmp(fam, "apache0")) { aflags = 0; f_apache(fam, s); } else if (!strcmp(fam, "apache3")) { aflags = 3; f_apache(fam, s); }
     return 0;
